@@ -561,7 +561,9 @@ class Parser:
                     values.append(self._concat_strings_in_constant(ss))
                     ss.clear()
 
-                values.extend(p.values)
+                # a piece of f-string text that is empty once decoded (a lone backslash-newline) does not exist for
+                # CPython: it lends neither a position nor a kind to the constants it would be merged with
+                values.extend(v for v in p.values if not (isinstance(v, ast.Constant) and v.value == ""))
             else:
                 ss.append(p)
 
@@ -574,10 +576,7 @@ class Parser:
         consolidated: list[Any] = []  # ast.Constant | ast.FormattedValue
         for p in values:
             if consolidated and isinstance(consolidated[-1], ast.Constant) and isinstance(p, ast.Constant):
-                if not consolidated[-1].value:  # type: ignore[unreachable]
-                    # a piece that is empty once decoded (a lone backslash-newline) contributes no position either
-                    consolidated[-1].lineno, consolidated[-1].col_offset = p.lineno, p.col_offset
-                consolidated[-1].value += p.value
+                consolidated[-1].value += p.value  # type: ignore[unreachable]
                 consolidated[-1].end_lineno = p.end_lineno
                 consolidated[-1].end_col_offset = p.end_col_offset
             else:
